@@ -189,11 +189,17 @@ func c10InProcess(seed int64, b int, out *childOut) {
 		go func() {
 			defer wg.Done()
 			<-start
+			give := func(l string) {
+				select {
+				case audits <- l:
+				case <-time.After(30 * time.Second): // Read is gone: the order check below reports what was written
+				}
+			}
 			seq++
-			audits <- vlib.AuLogin(vlib.BaseTSms+int64(k*10), seq, strconv.Itoa(pid), sid)
+			give(vlib.AuLogin(vlib.BaseTSms+int64(k*10), seq, strconv.Itoa(pid), sid))
 			for e := 1; e <= 1+r.Intn(3); e++ {
 				seq++
-				audits <- vlib.AuUser("USER_START", vlib.BaseTSms+int64(k*10+e), seq, pid, sid, "PAM:x", "success")
+				give(vlib.AuUser("USER_START", vlib.BaseTSms+int64(k*10+e), seq, pid, sid, "PAM:x", "success"))
 			}
 		}()
 		close(start)
@@ -203,7 +209,10 @@ func c10InProcess(seed int64, b int, out *childOut) {
 	// drain: a final sentinel pair
 	for k := 0; k < 2; k++ {
 		seq++
-		audits <- vlib.AuUser("USER_ACCT", vlib.BaseTSms+900000+int64(k), seq, 1, "4294967295", "x", "success")
+		select {
+		case audits <- vlib.AuUser("USER_ACCT", vlib.BaseTSms+900000+int64(k), seq, 1, "4294967295", "x", "success"):
+		case <-time.After(30 * time.Second):
+		}
 	}
 	deadline := time.Now().Add(10 * time.Second)
 	for len(audits) > 0 && time.Now().Before(deadline) {
